@@ -23,7 +23,7 @@ ASSUMPTIONS = [
     "grains touching the discontinuous sliding threshold / zero-slip guard during an update are gated (see _hist.twin_explore) and counted",
     "the derivatives seam (non-dimensionalised D has unit largest |eigenvalue|) is an observer: reported, decided only together with the black-box comparison",
 ]
-BOUND = {"quick": "8 k letters, depth 2, <=1 root deviation, n_grains <= 8", "thorough": "depth 3, <=2 root deviations"}
+BOUND = {"quick": "8 k letters, depth 2, <=1 root deviation, n_grains <= 8", "thorough": "depth 3, <=1 root deviation"}
 
 KS = ["1e-16", "1e-15", "1e-12", "1e-8", "1e-4", "1e-2", "10", "1e3"]
 PRMS = ["default", "M200chi0.9", "chi0", "M0"]
@@ -39,7 +39,7 @@ def warmup():
 
 def gen_cases(tier, seed):
     keys = []
-    for k in H.root_keys(tier, ["disl", "yield"], dev=1 if tier == "quick" else 2, prms=PRMS):
+    for k in H.root_keys(tier, ["disl", "yield"], dev=1, prms=PRMS):
         for kk in KS:
             keys.append(dict(k, k=kk, depth=2 if tier == "quick" else 3))
     for fab in alph.FABRICS:
